@@ -245,6 +245,31 @@ static void dump_tables() {
   ROWS(simdShiftES) BEGIN(simdShiftES) kv(s, "opcode", d.opcode); kv(s, "vec_op_type", d.vec_op_type); END
   ROWS(simdFcmpFcmpe) BEGIN(simdFcmpFcmpe) kv(s, "opcode", d.opcode()); END
   ROWS(simdFccmpFccmpe) BEGIN(simdFccmpFccmpe) kv(s, "opcode", d.opcode()); END
+  ROWS(simdLdSt) BEGIN(simdLdSt) kv(s, "u_offset_op", d.u_offset_op); kv(s, "pre_post_op", d.pre_post_op); kv(s, "register_op", d.register_op); kv(s, "literal_op", d.literal_op); kv(s, "u_alt_inst_id", d.u_alt_inst_id); END
+  ROWS(simdLdpStp) BEGIN(simdLdpStp) kv(s, "offset_op", d.offset_op); kv(s, "pre_post_op", d.pre_post_op); END
+  ROWS(simdLdurStur) BEGIN(simdLdurStur) kv(s, "opcode", d.opcode); END
+  ROWS(simdLdNStN) BEGIN(simdLdNStN) kv(s, "single_op", d.single_op); kv(s, "multiple_op", d.multiple_op); kv(s, "n", d.n); kv(s, "replicate", d.replicate); END
+  ROWS(fSimdVVVe) BEGIN(fSimdVVVe) kv(s, "scalar_op", d.scalar_op()); kv(s, "scalar_hf", d.scalar_hf()); kv(s, "vector_op", d.vector_op()); kv(s, "vector_hf", d.vector_hf());
+    kv(s, "element_scalar_op", d.element_scalar_op()); kv(s, "element_vector_op", d.element_vector_op()); END
+  ROWS(iSimdVVVe) BEGIN(iSimdVVVe) kv(s, "regular_op", d.regular_op); kv(s, "regular_vec_type", d.regular_vec_type); kv(s, "element_op", d.element_op); kv(s, "element_vec_type", d.element_vec_type); END
+  ROWS(simdDot) BEGIN(simdDot) kv(s, "vector_op", d.vector_op); kv(s, "element_op", d.element_op); kv(s, "ta", d.ta); kv(s, "tb", d.tb); kv(s, "tElement", d.tElement); END
+  ROWS(simdFmlal) BEGIN(simdFmlal) kv(s, "vector_op", d.vector_op()); kv(s, "element_op", d.element_op()); kv(s, "optional_q", d.optional_q()); kv(s, "ta", d.ta); kv(s, "tb", d.tb); kv(s, "tElement", d.tElement); END
+  ROWS(simdFcmla) BEGIN(simdFcmla) kv(s, "regular_op", d.regular_op()); kv(s, "element_op", d.element_op()); END
+  ROWS(simdFcadd) BEGIN(simdFcadd) kv(s, "opcode", d.opcode()); END
+  ROWS(simdMoviMvni) BEGIN(simdMoviMvni) kv(s, "opcode", d.opcode); kv(s, "inverted", d.inverted); END
+  ROWS(simdBicOrr) BEGIN(simdBicOrr) kv(s, "register_op", d.register_op); kv(s, "immediate_op", d.immediate_op); END
+  ROWS(simdShift) BEGIN(simdShift) kv(s, "register_op", d.register_op); kv(s, "immediate_op", d.immediate_op); kv(s, "inverted_imm", d.inverted_imm); kv(s, "vec_op_type", d.vec_op_type); END
+  ROWS(simdFcvtLN) BEGIN(simdFcvtLN) kv(s, "scalar_op", d.scalar_op()); kv(s, "vector_op", d.vector_op()); kv(s, "is_cvtxn", d.is_cvtxn()); kv(s, "has_scalar", d.has_scalar()); END
+  ROWS(simdFcvtSV) BEGIN(simdFcvtSV) kv(s, "scalar_int_op", d.scalar_int_op()); kv(s, "vector_int_op", d.vector_int_op()); kv(s, "scalar_fp_op", d.scalar_fp_op()); kv(s, "vector_fp_op", d.vector_fp_op());
+    kv(s, "general_op", d.general_op()); kv(s, "is_float_to_int", d.is_float_to_int()); kv(s, "is_fixed_point", d.is_fixed_point()); END
+  ROWS(simdFcm) BEGIN(simdFcm) kv(s, "has_register_op", d.has_register_op()); kv(s, "has_zero_op", d.has_zero_op()); kv(s, "register_scalar_op", d.register_scalar_op()); kv(s, "register_vector_op", d.register_vector_op());
+    kv(s, "register_hf", d.register_scalar_hf()); kv(s, "zero_scalar_op", d.zero_scalar_op()); kv(s, "zero_vector_op", d.zero_vector_op()); END
+  ROWS(fSimdPair) BEGIN(fSimdPair) kv(s, "scalar_op", d.scalar_op()); kv(s, "vector_op", d.vector_op()); END
+  ROWS(iSimdPair) BEGIN(iSimdPair) kv(s, "opcode2", d.opcode2); kv(s, "opcode3", d.opcode3); kv(s, "op_type3", d.op_type3); END
+  ROWS(simdTblTbx) BEGIN(simdTblTbx) kv(s, "opcode", d.opcode); END
+  ROWS(simdSmovUmov) BEGIN(simdSmovUmov) kv(s, "opcode", d.opcode); kv(s, "vec_op_type", d.vec_op_type); kv(s, "is_signed", d.is_signed); END
+  ROWS(simdSm3tt) BEGIN(simdSm3tt) kv(s, "opcode", d.opcode); END
+  ROWS(iSimdVVVVx) BEGIN(iSimdVVVVx) kv(s, "opcode", d.opcode); kv(s, "op0_signature", d.op0_signature); kv(s, "op1_signature", d.op1_signature); kv(s, "op2_signature", d.op2_signature); kv(s, "op3_signature", d.op3_signature); END
   // file-static tables of a64assembler.cpp
   for (size_t i = 0; i < sizeof(a64::shift_op_to_ld_st_opt_map); i++) printf("row shiftOpToLdStOptMap %zu value=%u\n", i, a64::shift_op_to_ld_st_opt_map[i]);
   for (size_t t = 0; t < a64::SizeOpTable::kCount; t++)
@@ -256,6 +281,11 @@ static void dump_tables() {
   printf("const kIdCount %u\n", a64::Inst::_kIdCount);
   printf("const sig_gp32 %u\n", RegTraits<RegType::kGp32>::kSignature);
   printf("const sig_gp64 %u\n", RegTraits<RegType::kGp64>::kSignature);
+  printf("const kVO_V_Any %u\n", uint32_t(a64::InstDB::kVO_V_Any));
+  printf("const kVO_V_B %u\n", uint32_t(a64::InstDB::kVO_V_B));
+  printf("const kVO_V_HS %u\n", uint32_t(a64::InstDB::kVO_V_HS));
+  printf("const kVO_V_B8D1 %u\n", uint32_t(a64::InstDB::kVO_V_B8D1));
+  printf("const kVO_V_B16D2 %u\n", uint32_t(a64::InstDB::kVO_V_B16D2));
   for (uint32_t rt = 0; rt < 32; rt++) printf("row regSignature %u value=%u\n", rt, RegUtils::signature_of(RegType(rt)).bits());
 }
 
